@@ -116,6 +116,11 @@ CFG = {
         profile=dict(name="c15", noise_w=[3, 1, 3, 4], fam_w=[6, 2, 1, 0, 1, 1, 1], monitors=["acq"],
                      knobs=dict(n_train=0.5, n_search=0.5), cons_p=0.15, budget_kinds=["small", "mid", "mid"]),
         n=dict(quick=96, thorough=3000),
+        # start (and optimum) far outside a plausible box of ordinary size inside a huge hard box: internal
+        # coordinates of 1e6..1e8, where a careless squared-distance formula loses all its digits
+        extra=[(dict(name="c15far", geom=["huge"], geom_w=[1], x0=["hard_not_plausible"], x0_w=[1], where=["hard", "x0"], where_w=[2, 1],
+                     fam=["quad", "abs"], fam_w=[3, 1], noise_w=[3, 0, 2, 2], cons_p=0.0, monitors=["acq"],
+                     budget_kinds=["small", "mid"], knobs=dict(n_train=0.3)), 16, 300)],
         nontrivial=lambda r: r["outcome"] == "completed" and r["lgf_calls"] >= 2 and r["acq_calls"] >= 2,
         rule="distinct scenarios completed with >=2 local GP fits and >=2 acquisition evaluations, all judged",
     ),
